@@ -145,6 +145,8 @@ static Json::Value gen() {
   }
   sc["ticks"] = ticks;
   sc["scripts"] = scripts;
+  // kernfs-style 64-bit cgroup identities (generation in the upper half, slot recycled per path)
+  if (P(25)) sc["virt_ino"] = true;
   return sc;
 }
 
